@@ -31,17 +31,17 @@ DATA = {
     "d3": [[1, 0, 0], [0, 2, 0], [0, 0, 3], [1, 1, 1], [5, 4, 3], [2, 7, 1], [8, 1, 6]],
 }
 PARTS = {
-    8: [[0, 0, 0, 0, 1, 1, 1, 1], [0, 1, 0, 1, 2, 2, 0, 1], [0, 0, 0, 1, 1, 1, 1, 1]],
+    8: [[0, 0, 0, 0, 1, 1, 1, 1], [0, 1, 0, 1, 2, 2, 0, 1], [0, 0, 0, 1, 1, 1, 1, 1], [0, 0, 0, 1, 1, 1, 2, 3]],
     6: [[0, 0, 0, 1, 1, 1], [0, 1, 0, 1, 0, 1]],
     7: [[0, 0, 0, 0, 1, 1, 1], [0, 1, 2, 0, 1, 2, 0]],
 }
 LABELMAPS = {
     "identity": lambda k: k,
-    "permuted": lambda k: (k + 1) % 3,
+    "permuted": lambda k: (k + 1) % 4,
     "plus5": lambda k: k + 5,
     "negative": lambda k: -1 - 2 * k,
-    "noncontiguous": lambda k: [3, 0, 17][k],
-    "large": lambda k: [10**6, 7, 2**40][k],
+    "noncontiguous": lambda k: [3, 0, 17, 5][k],
+    "large": lambda k: [10**6, 7, 2**40, 11][k],
 }
 
 
@@ -100,6 +100,11 @@ def cases(tier, seed):
             for pinv in (False, True):
                 for order in ("given", "reversed"):
                     out.append(dict(what="whitening", data=dname, kind=kind, pinv=pinv, order=order, seed=seed))
+        # features in very different units (exact power-of-two scaling of one column): full rank, large condition number
+        for kind in kinds[:3]:
+            for pinv in (False, True):
+                out.append(dict(what="whitening", data=dname, kind=kind, pinv=pinv, order="given", colscale=2.0**-17, seed=seed))
+                out.append(dict(what="wccn", data=dname, part=0, lm="identity", order="given", kind=kind, pinv=pinv, colscale=2.0**-17, seed=seed))
         # the same data far from the origin (offset large compared with the spread): means must be removed before products are formed
         for big in (1.0e6, -3.0e6):
             for kind in kinds[:4]:
@@ -134,8 +139,10 @@ def run_case(case):
     Xi = [rows[i] for i in idx]
     # exact data actually handed to the library (dyadic scale / integer offset keep the values exactly representable)
     big = case.get("big", 0.0)
+    cs = case.get("colscale", 1.0)
     X = np.array(Xi, float) * s + o + big
-    Xex = [[F(v) * F(s) + F(o) + F(big) for v in r] for r in Xi]
+    X[:, -1] *= cs
+    Xex = [[(F(v) * F(s) + F(o) + F(big)) * (F(cs) if d == len(r) - 1 else 1) for d, v in enumerate(r)] for r in Xi]
     tags = dict(what=case["what"], kind="dask" if isinstance(case["kind"], list) else case["kind"])
     if case["what"] == "whitening":
         mu = [sum(r[d] for r in Xex) / n for d in range(D)]
@@ -145,6 +152,7 @@ def run_case(case):
             return c.result(nontrivial=False)
         Cf = np.array([[float(v) for v in r] for r in Cx])
         cond = float(np.linalg.cond(Cf))
+        rt = max(1e-9, 256 * 2.0**-52 * cond)  # inverting the matrix loses log10(cond) digits; nothing more is tolerated
         m = Whitening(pinv=case["pinv"]).fit(_mk(X, case["kind"]))
         c.transitions += 1
         W = np.asarray(m.weights, float)
@@ -156,15 +164,15 @@ def run_case(case):
         c.check(bool(np.all(np.abs(np.triu(W, 1)) <= 1e-12 * np.abs(W).max())), "triangular", lambda: f"projection is not lower-triangular: {W.tolist()}", tags)
         c.check(bool(np.all(np.diag(W) > 0)), "positive_diagonal", lambda: f"diagonal {np.diag(W).tolist()}", tags)
         Wref = np.linalg.cholesky(np.linalg.inv(Cf))
-        c.close(W, Wref, "factor", "weights vs Cholesky factor of the inverse covariance (from the exact covariance)", tags, rtol=1e-9 * cond, scale=float(np.abs(Wref).max()), kappa=64 * cond)
+        c.close(W, Wref, "factor", "weights vs Cholesky factor of the inverse covariance (from the exact covariance)", tags, rtol=rt, scale=float(np.abs(Wref).max()) * rt / 2.0**-52, kappa=1.0)
         Xt = X.copy()
         Y = np.asarray(m.transform(Xt), float)
         Y2 = np.asarray(m.transform(Xt), float)
         c.check(np.array_equal(Xt, X), "transform_pure", "Whitening.transform modified its input array", tags)
         c.check(np.array_equal(Y, Y2), "transform_pure", "transforming the same array twice gives different results", tags)
-        c.close(Y.mean(axis=0), np.zeros(D), "whitening_identity", "mean of the transformed training data", tags, atol=1e-9 * cond)
-        c.close(np.cov(Y.T), np.eye(D), "whitening_identity", "covariance of the transformed training data", tags, rtol=1e-9 * cond, atol=1e-9 * cond)
-        return c.result(nontrivial=isinstance(case["kind"], list) or case["order"] != "given", sig="wh|%s|%s|%s|%s|%s" % (case["data"], case["kind"], case["pinv"], case["order"], case.get("big")))
+        c.close(Y.mean(axis=0), np.zeros(D), "whitening_identity", "mean of the transformed training data", tags, atol=rt * float(np.abs(Wref).max()) * float(np.abs(X).max() + 1))
+        c.close(np.cov(Y.T), np.eye(D), "whitening_identity", "covariance of the transformed training data", tags, rtol=rt, atol=rt)
+        return c.result(nontrivial=isinstance(case["kind"], list) or case["order"] != "given", sig="wh|%s|%s|%s|%s|%s|%s" % (case["data"], case["kind"], case["pinv"], case["order"], case.get("big"), case.get("colscale")))
     part = [PARTS[n][case["part"]][i] for i in idx]
     lm = LABELMAPS[case["lm"]]
     y = [lm(k) for k in part]
@@ -175,6 +183,7 @@ def run_case(case):
         return c.result(nontrivial=False)
     Sf = np.array([[float(v) for v in r] for r in Sk])
     cond = float(np.linalg.cond(Sf))
+    rt = max(1e-9, 256 * 2.0**-52 * cond)
     Wref = np.linalg.cholesky(np.linalg.inv(Sf))
     for ykind in ("array", "list"):
         yy = np.array(y) if ykind == "array" else list(y)
@@ -189,7 +198,7 @@ def run_case(case):
         c.check(bool(np.all(np.abs(np.triu(W, 1)) <= 1e-12 * np.abs(W).max())), "triangular", lambda: f"projection is not lower-triangular: {W.tolist()}", tags)
         c.check(bool(np.all(np.diag(W) > 0)), "positive_diagonal", lambda: f"diagonal {np.diag(W).tolist()}", tags)
         # depends only on the partition: the reference is computed from the partition alone
-        c.close(W, Wref, "factor", f"weights (labels {y}) vs Cholesky factor of inv(S_w / K) of the partition", tags, rtol=1e-9 * cond, scale=float(np.abs(Wref).max()), kappa=64 * cond)
+        c.close(W, Wref, "factor", f"weights (labels {y}) vs Cholesky factor of inv(S_w / K) of the partition", tags, rtol=rt, scale=float(np.abs(Wref).max()) * rt / 2.0**-52, kappa=1.0)
         # identity on the library's own transform output
         rows_in = [r.copy() for r in X]
         Y = np.array([np.asarray(v, float) for v in m.transform(rows_in)])
@@ -200,7 +209,7 @@ def run_case(case):
             pts = Y[[i for i in range(n) if part[i] == k]]
             dv = pts - pts.mean(axis=0)
             Sy += dv.T @ dv
-        c.close(Sy / K, np.eye(D), "wccn_identity", "within-class scatter of the transformed training data / number of classes", tags, rtol=1e-9 * cond, atol=1e-9 * cond)
+        c.close(Sy / K, np.eye(D), "wccn_identity", "within-class scatter of the transformed training data / number of classes", tags, rtol=rt, atol=rt)
     nontrivial = (K >= 2 and case["lm"] != "identity") or isinstance(case["kind"], list)
-    sig = "wccn|%s|%d|%s|%s|%s|%s|%s" % (case["data"], case["part"], case["lm"], case["order"], case["kind"], case["pinv"], case.get("big"))
+    sig = "wccn|%s|%d|%s|%s|%s|%s|%s" % (case["data"], case["part"], case["lm"], case["order"], case["kind"], case["pinv"], case.get("big")) + "|%s" % case.get("colscale")
     return c.result(nontrivial=nontrivial, sig=sig)
